@@ -58,13 +58,18 @@ pub struct Sim {
     pub last_pre_commit: BTreeMap<String, (u64, Vec<u8>)>,
     /// counterparty commitment numbers that were signed for a rogue point
     pub rogue: std::collections::BTreeSet<u64>,
+    /// the ready channel has a permanent id different from its initial id
+    pub perm: bool,
 }
 
-fn services(persister: Arc<dyn Persist>, clock: Arc<ManualClock>) -> NodeServices {
+fn services(persister: Arc<dyn Persist>, clock: Arc<ManualClock>, perm: bool) -> NodeServices {
     // policy numbers mirrored by lean/VlsModel/Drv/NodeReq.lean (cfg, vc0)
     let mut policy = make_default_simple_policy(Network::Testnet);
     policy.global_velocity_control = VelocityControlSpec { limit_msat: 100_000_000, interval_type: VelocityControlIntervalType::Hourly };
     policy.max_invoices = 6;
+    // the channel map may hold the ready channel and three stubs (a channel with a permanent id is in
+    // the map under both ids); mirrored by cfg.maxChannels = 4 of the model
+    policy.max_channels = if perm { 5 } else { 4 };
     NodeServices {
         validator_factory: Arc::new(SimpleValidatorFactory::new_with_policy(policy)),
         starting_time_factory: make_genesis_starting_time_factory(Network::Testnet),
@@ -166,7 +171,7 @@ impl Sim {
             allow_deep_reorgs: true,
         };
         persister.enter().unwrap();
-        let node = Arc::new(Node::new(config, &seed, vec![], services(persister.clone(), clock.clone())));
+        let node = Arc::new(Node::new(config, &seed, vec![], services(persister.clone(), clock.clone(), perm)));
         persister.new_node(&node.get_id(), &config, &*node.get_state()).unwrap();
         persister.new_tracker(&node.get_id(), &node.get_tracker()).unwrap();
         node.add_allowlist(&[]).unwrap();
@@ -224,6 +229,7 @@ impl Sim {
             last_muts: vec![],
             last_pre_commit: BTreeMap::new(),
             rogue: Default::default(),
+            perm,
         }
     }
 
@@ -626,7 +632,7 @@ impl Sim {
         let p2: Arc<dyn Persist> = Arc::new(KVVPersister(store2, JsonFormat));
         let nodes = p2.get_nodes().map_err(|e| format!("{:?}", e))?;
         let (node_id, entry) = nodes.into_iter().next().ok_or("no node in store")?;
-        Node::restore_node(&node_id, entry, &self.seed, services(p2.clone(), self.clock.clone())).map_err(|e| format!("{:?}", e))
+        Node::restore_node(&node_id, entry, &self.seed, services(p2.clone(), self.clock.clone(), self.perm)).map_err(|e| format!("{:?}", e))
     }
 
     /// Replace the running node by one restored from the store (a real restart).
@@ -635,7 +641,7 @@ impl Sim {
         let nodes = self.persister.get_nodes().unwrap();
         let (node_id, entry) = nodes.into_iter().next().unwrap();
         let p: Arc<dyn Persist> = self.persister.clone();
-        let r = std::panic::catch_unwind(std::panic::AssertUnwindSafe(|| Node::restore_node(&node_id, entry, &self.seed, services(p, self.clock.clone()))));
+        let r = std::panic::catch_unwind(std::panic::AssertUnwindSafe(|| Node::restore_node(&node_id, entry, &self.seed, services(p, self.clock.clone(), self.perm))));
         let n = self.persister.prepare().len();
         self.persister.commit().unwrap();
         match r {
@@ -815,6 +821,11 @@ pub fn gen_ops(rng: &mut Rng, len: usize) -> Vec<String> {
             }
             7 if ops.len() < 3 => {
                 ops.push(format!("osign {}", if rng.chance(1, 2) { "g" } else { "b" }));
+                continue;
+            }
+            11 if ops.len() < 4 => {
+                // fill the channel map (limit: three stubs), then try more
+                for d in 1..=rng.range(3, 5) { ops.push(format!("newch {}", d)); }
                 continue;
             }
             5 => {
